@@ -369,3 +369,89 @@ Proof.
 Qed.
 
 End Old.
+
+(* ---------------- the symlink type bit ---------------- *)
+Lemma testbit27 m : N.testbit m 27 = negb (N.eqb ((m / 134217728) mod 2) 0).
+Proof.
+  pose proof (N.testbit_spec' m 27) as H. change (2 ^ 27) with 134217728 in H.
+  destruct (N.testbit m 27); simpl in H; rewrite <- H; reflexivity.
+Qed.
+
+Lemma land_pow27 m : N.land m 134217728 = if N.testbit m 27 then 134217728 else 0.
+Proof.
+  apply N.bits_inj. intros k. rewrite N.land_spec. change 134217728 with (2 ^ 27). rewrite N.pow2_bits_eqb.
+  destruct (N.eqb 27 k) eqn:E.
+  - apply N.eqb_eq in E. subst k. rewrite andb_true_r. destruct (N.testbit m 27) eqn:T.
+    + rewrite N.pow2_bits_true. reflexivity.
+    + rewrite N.bits_0. reflexivity.
+  - rewrite andb_false_r. destruct (N.testbit m 27).
+    + rewrite N.pow2_bits_false; auto. apply N.eqb_neq in E. exact E.
+    + rewrite N.bits_0. reflexivity.
+Qed.
+
+Lemma go_mode_link t perm : mode_is_symlink (go_mode (KLink t) perm) = true.
+Proof.
+  unfold go_mode, mode_is_symlink, has_bits. pose proof (land511 perm) as Hp.
+  unfold ModeSetuid, ModeSetgid, ModeSticky, ModeSymlink. rewrite land_pow27, testbit27.
+  set (x := N.land perm 511 + (if negb (N.land perm S_ISUID =? 0) then 8388608 else 0)
+            + (if negb (N.land perm S_ISGID =? 0) then 4194304 else 0)
+            + (if negb (N.land perm S_ISVTX =? 0) then 1048576 else 0)).
+  assert (Hx : x < 134217728).
+  { unfold x. destruct (negb (N.land perm S_ISUID =? 0)), (negb (N.land perm S_ISGID =? 0)), (negb (N.land perm S_ISVTX =? 0)); lia. }
+  assert (E : (x + 134217728) / 134217728 = 1).
+  { symmetry. apply (N.div_unique (x + 134217728) 134217728 1 x); lia. }
+  rewrite E. reflexivity.
+Qed.
+
+(* ---------------- "below" on strings and on components ---------------- *)
+Lemma comps_app_sep_gen a b : comps (a ++ sep :: b) = comps a ++ comps b.
+Proof.
+  induction a as [|x a IH]; simpl.
+  - reflexivity.
+  - destruct (N.eqb x sep) eqn:E.
+    + rewrite IH. reflexivity.
+    + rewrite IH. destruct (comps a) as [|c cs] eqn:Ec; [exfalso; apply (comps_nonempty a Ec)|]. reflexivity.
+Qed.
+
+Lemma suppressed_prefix X q : suppressed (X ++ [sep]) q = true ->
+  exists y, y <> [] /\ comps q = comps X ++ y.
+Proof.
+  unfold suppressed. intros H. apply andb_true_iff in H. destruct H as [_ H].
+  apply has_prefix_app in H. destruct H as [r ->]. rewrite <- app_assoc. simpl.
+  rewrite comps_app_sep_gen. exists (comps r). split; auto. apply comps_nonempty.
+Qed.
+
+Lemma has_prefix_self a b : has_prefix a (a ++ b) = true.
+Proof. induction a as [|x a IH]; simpl; [reflexivity|]. rewrite N.eqb_refl. exact IH. Qed.
+
+Lemma joinc_app a b : a <> [] -> b <> [] -> joinc (a ++ b) = joinc a ++ sep :: joinc b.
+Proof.
+  intros Ha Hb. induction a as [|c a IH]; [congruence|].
+  destruct a as [|c2 a].
+  - simpl. destruct b; [congruence|reflexivity].
+  - change ((c :: c2 :: a) ++ b) with (c :: ((c2 :: a) ++ b)).
+    rewrite (joinc_cons c ((c2 :: a) ++ b)) by (simpl; discriminate).
+    rewrite IH by discriminate. rewrite (joinc_cons c (c2 :: a)) by discriminate.
+    rewrite <- app_assoc. reflexivity.
+Qed.
+
+Lemma prefix_suppressed X q y : ok_path X = true -> ok_path q = true -> y <> [] -> comps q = comps X ++ y ->
+  suppressed (X ++ [sep]) q = true.
+Proof.
+  intros HX Hq Hy E. unfold suppressed. apply andb_true_iff. split.
+  - destruct X; reflexivity.
+  - rewrite <- (joinc_comps q), E. rewrite joinc_app; [|apply comps_nonempty|exact Hy].
+    rewrite joinc_comps. change (X ++ sep :: joinc y) with (X ++ [sep] ++ joinc y). rewrite app_assoc. apply has_prefix_self.
+Qed.
+
+(* between a path and one of its descendants there are only descendants *)
+Lemma lex_between_prefix : forall X p y, lex X p = Lt -> lex p (X ++ y) = Lt -> is_prefix X p.
+Proof.
+  induction X as [|x X IH]; intros p y H1 H2; [exists p; reflexivity|].
+  destruct p as [|c p]; [simpl in H1; discriminate|].
+  simpl in H1, H2. destruct (cmpb x c) eqn:E.
+  - apply cmpb_eq in E. subst c. rewrite cmpb_refl in H2.
+    destruct (IH p y H1 H2) as [z ->]. exists z. reflexivity.
+  - rewrite cmpb_opp, E in H2. simpl in H2. discriminate.
+  - discriminate.
+Qed.
